@@ -21,7 +21,7 @@ ASSUMPTIONS = simnet.ASSUMPTIONS + [
     "for the return value",
 ]
 
-ENDINGS = ("close0", "close2", "close-reason", "eof", "reset", "proto", "badutf8", "pingtimeout", "refused", "rejected",
+ENDINGS = ("reconnect-then-close", "close0", "close2", "close-reason", "eof", "reset", "proto", "badutf8", "pingtimeout", "refused", "rejected",
            "close-in-open", "close-in-message", "close-in-ping", "close-in-data", "kbd-in-message")
 
 
@@ -38,7 +38,13 @@ def _spec_for(ending, ntraffic, tag=""):
     rf, hooks, outcomes, raise_in, raise_exc = {}, {}, {}, None, None
     spec = {"script": script}
     exp_args, exp_err = (None, None), True
-    if ending == "close0":
+    if ending == "reconnect-then-close":
+        # first connection is lost, the app reconnects (reconnect=2) with a ping thread per connection, the second one is closed by the server
+        script.append((1, "EOF"))
+        rf = dict(reconnect=2, ping_interval=10, ping_timeout=3)
+        exp_err = True
+        spec["next"] = {"script": [(1, server_frame(1, 2, b"n")), (1, close_frame())]}
+    elif ending == "close0":
         script.append((1, close_frame()))
         exp_err = False
     elif ending == "close2":
@@ -128,6 +134,8 @@ def _eq(a, b):
 def t_end(ending, ntraffic, second=None, tls=False):
     spec, rf, hooks, outcomes, raise_in, raise_exc, exp_args, exp_err = _spec_for(ending, ntraffic)
     specs = [spec]
+    if "next" in spec:
+        specs.append(spec.pop("next"))
     if second is not None:
         spec2, rf2, hooks2, outcomes2, ri2, re2, exp_args2, exp_err2 = _spec_for(second, 1, tag="b")
         specs.append(spec2)
